@@ -62,29 +62,42 @@ def T(s):
 
 
 # ------------------------------------------------------------------------------------------------
-def replay_cases(chk, replays):
+def rm_step(s, r, c):
+    return {"a": "RemoveCell", "s": s, "r": r, "c": c}
+
+
+def replay_cases(chk, replays, removal_only=False):
     """TLC behaviours: group by build history, attach the exports TLC enumerated, instantiate the
-    placeholder character for the target encoding."""
+    placeholder character for the target encoding.  quick tier: a seeded third of the general histories
+    x 2 encodings, every removal history x 1 encoding; thorough: everything x 10 encodings."""
     groups = {}
     for h in replays:
         build = [st for st in h if st["a"] != "Export"]
+        if removal_only and not any(st["a"] == "RemoveCell" for st in build):
+            continue
         key = json.dumps(build, sort_keys=True)
         groups.setdefault(key, (build, []))[1].append(h[-1])
     cases = []
-    per = 2 if chk.tier == "quick" else len(ENCODINGS)
-    for gi, (key, (build, exps)) in enumerate(sorted(groups.items())):
+    quick = chk.tier == "quick"
+    per = (1 if removal_only else 2) if quick else len(ENCODINGS)
+    items = sorted(groups.items())
+    if quick and not removal_only:
+        items = [it for it in items if chk.rng.random() < 1 / 3 or any(st["a"] == "RemoveCell" for st in it[1][0])]
+    for gi, (key, (build, exps)) in enumerate(items):
         for j in range(per):
-            enc = ENCODINGS[(gi + j * 5) % len(ENCODINGS)] if per == 2 else ENCODINGS[j]
+            enc = ENCODINGS[(gi + j * 5) % len(ENCODINGS)] if quick else ENCODINGS[j]
             rep = PLACEHOLDER if enc.startswith("utf") else REPERTOIRE[enc][gi % len(REPERTOIRE[enc])]
             steps = []
             for st in build:
                 if st["a"] == "SetCell":
                     steps.append(cell(st["s"], st["r"], st["c"], [rep if x == PLACEHOLDER else x for x in st["v"]]))
+                elif st["a"] == "RemoveCell":
+                    steps.append(rm_step(st["s"], st["r"], st["c"]))
                 else:
                     steps.append({"a": "SetActive", "s": st["s"]})
             for e in sorted(exps, key=lambda e: (e["trim"], e["wrap"])):
                 steps.append({"a": "Export", "trim": e["trim"], "wrap": e["wrap"]})
-            cases.append({"nsheets": 2, "enc": enc, "steps": steps, "src": "tlc"})
+            cases.append({"nsheets": 2, "enc": enc, "steps": steps, "src": "tlc-removal" if removal_only else "tlc"})
     return cases
 
 
@@ -117,6 +130,19 @@ def boundary_cases(chk):
         add(enc, 3, [cell(1, 5, 5, T("other")), cell(3, 1, 2, T("third")), cell(2, 2, 1, T("second")),
                      {"a": "SetActive", "s": 3}] + exports_all() +
             [{"a": "SetActive", "s": 2}] + exports_all() + [{"a": "SetActive", "s": 1}])
+        # removals: the grid must shrink to what is still used (rightmost / lowest cell removed, a cell whose
+        # transposed position holds the only cell of the last column, diagonal cell, removal on another sheet,
+        # removal of a missing cell, removal then re-insertion)
+        add(enc, 1, [cell(1, 1, 1, T("a")), cell(1, 2, 1, T("b")), cell(1, 1, 3, T("c"))] + exports_all()[:2] +
+            [rm_step(1, 1, 3)])
+        add(enc, 1, [cell(1, 1, 1, T("a")), cell(1, 2, 3, T("c")), cell(1, 3, 2, T("x")), rm_step(1, 3, 2)])
+        add(enc, 1, [cell(1, 1, 1, T("a")), cell(1, 3, 3, [na]), rm_step(1, 3, 3)])
+        add(enc, 1, [cell(1, 1, 1, T("a")), cell(1, 4, 1, T("d")), cell(1, 1, 2, T("b")), rm_step(1, 4, 1),
+                     rm_step(1, 5, 5)])
+        add(enc, 2, [cell(1, 1, 2, T("p")), cell(2, 2, 1, T("q")), cell(2, 1, 2, T("r")), rm_step(2, 1, 2)] +
+            exports_all() + [{"a": "SetActive", "s": 2}])
+        add(enc, 1, [cell(1, 2, 3, T("x")), rm_step(1, 2, 3)] + exports_all()[:1] + [cell(1, 1, 2, T("y")),
+                     cell(1, 2, 3, T("z")), rm_step(1, 1, 2)])
         # an empty active sheet (zero records), overwriting a cell
         add(enc, 2, [cell(1, 1, 1, T("x")), {"a": "SetActive", "s": 2}])
         add(enc, 1, [cell(1, 1, 1, T("a,b")), cell(1, 1, 1, T("ab")), cell(1, 2, 2, T("q")), cell(1, 2, 2, num=7)])
@@ -198,6 +224,37 @@ def random_cases(chk):
                 steps.insert(pos, {"a": "SetActive", "s": nsheets})
         exps = exports_all()
         rng.shuffle(exps)
+        if rng.random() < 0.6:
+            # second phase: export, remove cells again (whole last column / last row / a few cells / a missing
+            # cell / a cell of another sheet), possibly set some again, export with every option
+            have = {}
+            for st in steps:
+                if st["a"] == "SetCell":
+                    have.setdefault(st["s"], set()).add((st["r"], st["c"]))
+            mine = sorted(have.get(act, set()))
+            rem = []
+            if mine:
+                mode = rng.random()
+                if mode < 0.3:
+                    mc = max(c for _, c in mine)
+                    rem = [p for p in mine if p[1] == mc]
+                elif mode < 0.55:
+                    mr = max(r for r, _ in mine)
+                    rem = [p for p in mine if p[0] == mr]
+                else:
+                    rem = rng.sample(mine, min(len(mine), rng.randint(1, 4)))
+            rsteps = [rm_step(act, r, c) for r, c in rem]
+            if rng.random() < 0.3:
+                rsteps.append(rm_step(act, rng.randint(1, R + 2), rng.randint(1, C + 2)))
+            others = [(s_, p) for s_ in have if s_ != act for p in sorted(have[s_])]
+            if others and rng.random() < 0.4:
+                s_, (r, c) = rng.choice(others)
+                rsteps.append(rm_step(s_, r, c))
+            rng.shuffle(rsteps)
+            if rem and rng.random() < 0.3:
+                r, c = rng.choice(rem)
+                rsteps.append(cell(act, r, c, random_value(rng, enc, specials)))
+            steps = steps + exps[:2] + rsteps
         cases.append({"nsheets": nsheets, "enc": enc, "steps": steps + exps, "src": "random"})
     return cases
 
@@ -252,8 +309,8 @@ def judge(chk, cases):
 def run(chk):
     acts = ["SetCell", "Begin", "EmitOpen", "EmitChar", "EmitDoubled", "EmitClose", "EmitComma", "EmitNewline",
             "Finish", "Encode"]
-    vlib.tlc_mc("MC_Csv", "MC_Csv.cfg", workers=4, must_take=acts, check=chk)
-    vlib.tlc_mc("MC_Csv", "MC_Csv_sheets.cfg", workers=4, must_take=acts + ["SetActive"], check=chk)
+    vlib.tlc_mc("MC_Csv", "MC_Csv.cfg", workers=4, must_take=acts + ["RemoveCell"], check=chk)
+    vlib.tlc_mc("MC_Csv", "MC_Csv_sheets.cfg", workers=4, must_take=acts + ["SetActive", "RemoveCell"], check=chk)
     vlib.tlc_mc("MC_Csv", "MC_Csv_deep.cfg", workers=4, must_take=acts, check=chk)
     vlib.tlc_mc("MC_Csv", "MC_Csv_free.cfg", workers=4, must_take=["BeginFree", "Feed", "FinishFree"], check=chk)
     if chk.tier == "thorough":
@@ -270,7 +327,15 @@ def run(chk):
         raise vlib.ToolError("MC_Csv_replay did not produce behaviours")
     chk.add_mc("MC_Csv", "MC_Csv_replay.cfg", r)
     vlib.log(f"[tlc] MC_Csv MC_Csv_replay.cfg: {len(r.replays)} behaviours")
-    cases = replay_cases(chk, r.replays) + boundary_cases(chk) + random_cases(chk)
+    r2 = vlib.run_tlc("MC_Csv", "MC_Csv_replay_rm.cfg", workers=4, coverage=False)
+    if not r2.ok or not r2.replays:
+        raise vlib.ToolError("MC_Csv_replay_rm did not produce behaviours")
+    chk.add_mc("MC_Csv", "MC_Csv_replay_rm.cfg", r2)
+    vlib.log(f"[tlc] MC_Csv MC_Csv_replay_rm.cfg: {len(r2.replays)} behaviours")
+    cases = (replay_cases(chk, r.replays) + replay_cases(chk, r2.replays, removal_only=True) + boundary_cases(chk) +
+             random_cases(chk))
+    if not any(st["a"] == "RemoveCell" for c in cases for st in c["steps"]):
+        raise vlib.ToolError("no removal history was generated")
     for i, c in enumerate(cases):
         c["case"] = i
     events = judge(chk, cases)
@@ -290,9 +355,10 @@ def run(chk):
     chk.nontrivial = keys
     chk.extra["exports_by_encoding"] = by_enc
     chk.extra["cases_by_source"] = by_src
-    chk.rule = ("case = workbook built by SetCell/SetActive + exports; sources: every TLC-enumerated history of <= 2 "
-                "build actions x 6 trim/wrap options (x 2 encodings quick, x 10 thorough), hand-written boundary sheets "
-                "per encoding, seeded random sheets (quick <= 6x6, thorough <= 20x20, 1-3 sheets); an export is "
+    chk.rule = ("case = workbook built by SetCell/RemoveCell/SetActive + exports; sources: TLC-enumerated histories of <= 2 "
+                "build actions (quick: a seeded third x 2 encodings, thorough: all x 10) and every TLC-enumerated "
+                "history of <= 3 build actions that removes a cell, each x 6 trim/wrap options; hand-written boundary sheets "
+                "per encoding, seeded random sheets (quick <= 6x6, thorough <= 20x20, 1-3 sheets; 60% with a second phase that removes cells and exports again); an export is "
                 "non-trivial when the active sheet has at least one cell; distinct = distinct (encoding, trim, wrap, "
                 "active sheet content)")
     for c, evs in zip(cases, events):
